@@ -129,3 +129,21 @@ Proof.
   split; [exact CliArgsProofs.spelling_free_holds | exact CliArgsProofs.output_options_irrelevant_holds]].
 Qed.
 Print Assumptions C19_option_order_spelling_and_output_options.
+
+(* ---- tie to the code: main.rs read on this run (the gen_cli tables of tools/translate.py) ---- *)
+(* the option table the model's parse_argv works with is the sequence of optflag calls of
+   main_real (nothing but flags is declared); help is tested before version, both before anything
+   else; the output options are applied to the RunOptions in the order q d t i ungroup trace (the
+   order OutputSpec.opts_of_flags assumes); --check is only read into a variable; and the timeout
+   used when the third argument is absent is the model's default *)
+Theorem C19_option_table_is_main_rs :
+  gen_cli_flags = Some (map (fun f => (match CliArgs.short_name f with Some c => String c EmptyString | None => "" end,
+                                       CliArgs.long_name f)) CliArgs.all_flags) /\
+  gen_cli_early = Some ["h"; "version"] /\
+  gen_cli_effects = Some [("q", "set_quiet"); ("d", "set_debug"); ("t", "set_test"); ("i", "set_prompt");
+                          ("ungroup-debug-wires", "set_no_group_wire_values");
+                          ("trace-assignments", "set_trace_assignments")] /\
+  gen_cli_others = Some [("check_only", "c")] /\
+  gen_cli_default_timeout = Some default_timeout.
+Proof. vm_compute. repeat split; reflexivity. Qed.
+Print Assumptions C19_option_table_is_main_rs.
